@@ -511,7 +511,7 @@ bool TMCG_SecretKey::decrypt
 		// test all four square roots
 		for (size_t k = 0; k < 4; k++)
 		{
-			if ((mpz_sizeinbase(vroot[k], 2UL) / 8) <= rabin_s)
+			if (mpz_sizeinbase(vroot[k], 2UL) <= (rabin_s * 8))
 			{
 				size_t cnt = 1;
 				mpz_export(yy, &cnt, -1, rabin_s, 1, 0, vroot[k]);
